@@ -24,7 +24,7 @@ class Harness:
         self.expect = attrs.get('expect', 'pass')
         self.scope = attrs.get('scope', 'instantiation')
         self.desc = attrs.get('desc', '')
-        self.features = meta.get('features', '')
+        self.features = attrs.get('features', meta.get('features', ''))
         self.flags = meta.get('flags', '')
         if attrs.get('flags'):
             self.flags = (self.flags + ' ' + attrs['flags'].replace('+', ' ')).strip()
@@ -115,9 +115,12 @@ def discover():
 
 
 def strip_dev_deps(cargo_toml):
+    """Scratch copy only: drop the bench target and the heavy dev-dependencies (criterion, rand) that nothing under
+    verification uses; serde_json / bincode stay because the crate's own #[cfg(test)] modules name them and the native
+    counterexample playback compiles the lib in test mode."""
     s = open(cargo_toml).read()
-    s = re.sub(r'\n\[dev-dependencies\].*?(?=\n\[)', '\n', s, flags=re.S)
     s = re.sub(r'\n\[\[bench\]\].*?(?=\n\[)', '\n', s, flags=re.S)
+    s = re.sub(r'^(criterion|rand)\s*=.*$\n', '', s, flags=re.M)
     open(cargo_toml, 'w').write(s)
 
 
